@@ -197,7 +197,11 @@ class Interp:
 
     def call_by_contract(self, c: Contract, fn: ast.FunctionDef, pos: list, kw: dict, self_obj=None):
         cx = self.cx
-        fr = Frame(c.target, fn, None, None, c)
+        try:
+            mi_, ci_, _fn, _k = self.index.function(c.target)
+        except Exception:
+            mi_, ci_ = None, None
+        fr = Frame(c.target, fn, mi_, ci_, c)
         self.bind_args(fn, fr, pos, kw, self_obj)
         a = fr.locals
         for name, f in c.requires(cx, a):
@@ -690,6 +694,12 @@ class Interp:
 
     # =================================================================================== expressions
     def ev(self, e: ast.expr, fr: Frame):
+        hooks = getattr(fr.contract, "expr_hooks", None) if fr.contract is not None else None
+        if hooks and isinstance(e, (ast.Call, ast.GeneratorExp, ast.ListComp, ast.JoinedStr)):
+            h = hooks.get(ast.unparse(e))
+            if h is not None:
+                self.cx.assume_note(f"{fr.target}: `{ast.unparse(e)[:90]}` is given its assumed meaning by the contract")
+                return h(self, fr)
         m = getattr(self, "ev_" + type(e).__name__, None)
         if m is None:
             raise Unsupported(f"expression {type(e).__name__} at line {getattr(e, 'lineno', '?')}")
@@ -938,6 +948,8 @@ class Interp:
             return SFunc("builtin", f"opaque.{attr}", self_obj=obj)
         if isinstance(obj, (SList, SDict, SSet, SStr, str, bytes, tuple)):
             return SFunc("builtin", f"{_tname(obj)}.{attr}", self_obj=obj)
+        if isinstance(obj, SInt):
+            return SFunc("builtin", f"int.{attr}", self_obj=obj)
         if isinstance(obj, SModule):
             return SFunc("builtin", f"{obj.name}.{attr}")
         if isinstance(obj, SClass):
